@@ -42,7 +42,20 @@ def solved_u(rng, p, fname, const):
 
 def hostile_u(rng, p, nbytes, specials):
     top = 1 << (8 * nbytes)
-    t = rng.randrange(12)
+    t = rng.randrange(16)
+    if t >= 12:
+        # limb patterns and sparse values: the first ladder steps multiply and square field elements that are simple functions
+        # of u (u+1, u-1, their squares, 4u), so structure in u is structure in the operands of the first multiplications
+        if t < 14:
+            from fieldmodel import hostile_raw
+            v = hostile_raw(rng, FIELDS["gf448" if nbytes == 56 else "gf25519"]) % top
+            return v, "u-limb-pattern"
+        v = 0
+        for _ in range(rng.choice([1, 2, 2, 3, 4])):
+            v += rng.choice([1, -1, 3]) * (1 << rng.randrange(8 * nbytes))
+        if rng.randrange(3) == 0:
+            v = p - v
+        return v % top, "u-sparse"
     if t >= 10:
         u = solved_u(rng, p, "gf448" if nbytes == 56 else "gf25519", 39081 if nbytes == 56 else 121665)
         if u is not None:
@@ -144,7 +157,7 @@ def main(argv):
         rep.merge(m)
         rep.require("x25519:u-small-order-or-noncanonical", "x25519:u>=p", "x25519:u-topbit", "x25519:zero-output", "x25519:k-zero", "x25519:k-ones",
                     "x25519:base-vs-general", "x25519:dh-agreement", "x448:u>=p", "x448:zero-output", "x448:base-vs-general", "x448:k-clamp-bits-set",
-                    "x448:first-step-E-solved", "x25519:first-step-E-solved")
+                    "x448:first-step-E-solved", "x25519:first-step-E-solved", "x25519:u-sparse", "x448:u-sparse", "x25519:u-limb-pattern", "x448:u-limb-pattern")
     except Inconclusive as e:
         rep.incon.append(str(e))
     return rep.finish()
